@@ -761,9 +761,11 @@ pub fn par_y(rng: &mut Rng, size: usize, out: &mut Vec<String>) {
         let fault = if rng.chance(1, 6) { format!("@{}.{}", rng.range(1, 3), rng.below(crate::util::KINDS.len())) } else { String::new() };
         // a third of the cases go through the set-level API (`read_parallel` + `ReusableReader`)
         // a third of the cases go through the set-level API, half of those with a non-default growth policy
-        let api = match rng.below(6) {
+        let api = match rng.below(7) {
             0 => format!("{}2", fmt),
             1 => format!("{}3", fmt),
+            // the generic per-record function `parallel_records`
+            2 => format!("{}4", fmt),
             _ => fmt.to_string(),
         };
         out.push(format!(
@@ -883,6 +885,20 @@ pub fn recode_groups(fmt: &str, rng: &mut Rng, n_files: usize, out: &mut Vec<Str
                         x
                     })
                     .collect();
+                let mut lines: Vec<Vec<u8>> = lines;
+                // empty sequence lines (legal: they belong to the record and change no sequence) – not in the last
+                // record, where an unterminated empty last line would not exist at all
+                if fa.len() + 1 < nrec {
+                    if !lines.is_empty() && rng.chance(1, 8) {
+                        let at = rng.below(lines.len());
+                        lines.insert(at, vec![]);
+                    }
+                    if rng.chance(1, 4) {
+                        for _ in 0..rng.range(1, 3) {
+                            lines.push(vec![]);
+                        }
+                    }
+                }
                 fa.push((h, lines));
             } else {
                 let l = *rng.pick(&[0usize, 1, 2, 4, 9, 20]);
@@ -948,6 +964,9 @@ pub fn recode_groups(fmt: &str, rng: &mut Rng, n_files: usize, out: &mut Vec<Str
                     f.extend(q);
                     if !(i + 1 == n && !final_term) {
                         term(&mut f, &mut vr);
+                    } else if variant == 3 && vr.chance(1, 2) {
+                        // a CRLF file that lost only the final line feed
+                        f.push(b'\r');
                     }
                 }
                 if variant >= 4 {
@@ -1213,6 +1232,7 @@ pub fn alloc_mixed(fmt: &str, rng: &mut Rng, n: usize, out: &mut Vec<String>) {
     for _ in 0..n {
         let nrec = rng.range(8, 40);
         let big_every = rng.range(3, 12);
+        let many_lines = rng.chance(1, 4);
         let crlf = rng.chance(1, 3);
         let term: &[u8] = if crlf { b"\r\n" } else { b"\n" };
         let mut f = vec![];
@@ -1225,9 +1245,11 @@ pub fn alloc_mixed(fmt: &str, rng: &mut Rng, n: usize, out: &mut Vec<String>) {
                 f.push(b'>');
                 f.extend(rand_bytes(rng, hl, b"abcdef "));
                 f.extend_from_slice(term);
-                let nl = if big { rng.range(4, 12) } else { rng.range(0, 4) };
+                // (in a quarter of the files the big records have very many short lines: the offset vector of a record
+                // then needs far more room than those of its neighbours)
+                let nl = if big { if many_lines { rng.range(70, 160) } else { rng.range(4, 12) } } else { rng.range(0, 4) };
                 for _ in 0..nl {
-                    let sl = if big { rng.range(10, 60) } else { rng.range(0, 12) };
+                    let sl = if big { if many_lines { rng.range(1, 4) } else { rng.range(10, 60) } } else { rng.range(0, 12) };
                     f.extend(rand_bytes(rng, sl, b"ACGT"));
                     f.extend_from_slice(term);
                 }
